@@ -121,7 +121,7 @@ def listing(root):
     return sorted(out)
 
 
-def run_one(kind, pk, limit, steps, end, tag):
+def run_one(kind, pk, limit, steps, end, tag, via="composition"):
     """returns (series | ('EXC', cls, msg), files_outside, files_left, spilled_files_seen)"""
     wd = os.path.join(WORK, tag)
     shutil.rmtree(wd, ignore_errors=True)
@@ -142,8 +142,12 @@ def run_one(kind, pk, limit, steps, end, tag):
     units = "mm/h" if kind in ("Sum", "SumLin") else "m"
     try:
         p, c = Prod(pk, steps[0], units), Cons(pk, steps[1])
-        comp = compose([p, c], slot_memory_limit=limit, slot_memory_location=loc)
+        comp = compose([p, c], slot_memory_limit=limit if via == "composition" else None, slot_memory_location=loc)
         a = mk_adapter(kind)
+        if via == "slot":  # limit given per slot, location composition-wide
+            p.outputs["o"].memory_limit = limit
+            if a is not None:
+                a.memory_limit = limit
         if a is None:
             p.outputs["o"] >> c.inputs["i"]
         else:
@@ -191,6 +195,7 @@ def run_case(case):
     tag = "%s_%s_%s_%s_%d" % (kind, pk, steps[0], steps[1], os.getpid())
     res = dict(n=0, nontrivial=0, counters={}, violations=[])
     cnt = res["counters"]
+    via = case.get("via", "composition")
     ref, out0, left0, _ = run_one(kind, pk, None, steps, end, tag)
     size = 8 if pk == "scalar" else 48
     lims = case.get("limits") or limits_for(size, case["nmax"])
@@ -199,7 +204,7 @@ def run_case(case):
         return res
     for lim in lims:
         res["n"] += 1
-        got, outside, left, nseen = run_one(kind, pk, lim, steps, end, tag)
+        got, outside, left, nseen = run_one(kind, pk, lim, steps, end, tag, via)
         if nseen:
             res["nontrivial"] += 1
             cnt["runs_that_spilled"] = cnt.get("runs_that_spilled", 0) + 1
@@ -228,9 +233,11 @@ def replay(case):
 
 def run(tier, seed, agg):
     q = tier == "quick"
-    pairs = [(1, 1), (1, 2), (2, 1), (1, 3)] if q else [(1, 1), (1, 2), (2, 1), (1, 3), (3, 1), (2, 3), (3, 2)]
-    end = 6 if q else 9
-    cases = [dict(kind=k, payload=p, steps=list(s), end=end, nmax=4 if q else 7) for k in KINDS for p in PAYLOADS for s in pairs]
+    pairs = [(a, b) for a in (1, 2, 3) for b in (1, 2, 3)]
+    ends = (6, 7, 8) if q else (5, 6, 7, 8, 9, 10, 11, 12)
+    end = ends
+    cases = [dict(kind=k, payload=p, steps=list(s), end=e, nmax=4 if q else 7, via="composition") for k in KINDS for p in PAYLOADS for s in pairs for e in ends]
+    cases += [dict(kind=k, payload=p, steps=list(s), end=7, nmax=2 if q else 4, via="slot") for k in KINDS for p in PAYLOADS for s in ((1, 1), (1, 2), (3, 2))]
     k = seed % len(cases)
     cases = cases[k:] + cases[:k]
     os.makedirs(WORK, exist_ok=True)
@@ -243,7 +250,7 @@ def run(tier, seed, agg):
         level="fault_enumeration",
         rule="slot kind {output, Next, Previous, Linear, Step, Avg, Avg(step), Sum(per_time), Sum(absolute), Sum(linear)} x payload {scalar, 2x3 grid, 2x3 masked} x step pair x memory limit in "
         "{0,1,s-1,s,s+1,...,Ns+1} (every prefix of publications kept in RAM, off-by-one around each threshold), each run through the real Composition and compared with the run without limit; "
-        "directory listing observed around every producer update and after run(). non-trivial = runs in which at least one spill file was observed",
+        "limit given composition-wide or per slot (with the composition-wide location); directory listing observed around every producer update and after run(). non-trivial = runs in which at least one spill file was observed",
         bound=dict(horizon_h=end, step_pairs=pairs, N=4 if q else 7),
         assumptions=["byte size s of one data set = 8 x number of elements", "series compared with rtol 1e-12"],
     )
